@@ -137,3 +137,53 @@ func Harness_C02_reissued() {
 	vAssert(full, "the path leaf, R_old, R_new, root -- every submitted certificate, in the order given -- is found")
 	vReach("found")
 }
+
+// Harness_C02_twoRoots: the trusted pool holds two different certificates of the same CA (same
+// subject and key): a cross certificate issued by a CA the log does not know, and the
+// self-signed root, loaded in either order. The hierarchy is leaf <- I <- X (or leaf <- X). The
+// path builder returns one path per trusted certificate, each ending in that very certificate
+// (a submission ending in either of them is matched by ValidateChain), and no path twice.
+//
+//verif:opt maxpaths=2000 reach=found
+func Harness_C02_twoRoots() {
+	mk := func(id, key, subj, iss byte, ca bool) *Certificate {
+		return &Certificate{Raw: []byte{0x30, id}, RawTBSCertificate: []byte{id}, RawSubjectPublicKeyInfo: []byte{key},
+			RawSubject: []byte{subj}, RawIssuer: []byte{iss}, Version: 3, PublicKeyAlgorithm: ECDSA, SignatureAlgorithm: ECDSAWithSHA256,
+			BasicConstraintsValid: ca, IsCA: ca, MaxPathLen: -1}
+	}
+	withInter := vChoice("intermediate", 2) == 1
+	leaf := mk(1, 0x11, 0x0a, 0x05, false)
+	inter := mk(2, 0x20, 0x05, 0x07, true)
+	if !withInter {
+		leaf.RawIssuer = []byte{0x07}
+	}
+	xCross := mk(3, 0x40, 0x07, 0x09, true) // issued by an unknown CA
+	xSelf := mk(4, 0x40, 0x07, 0x07, true)
+	c02Sig = map[[2]byte]bool{{1, 0x20}: withInter, {1, 0x40}: !withInter, {2, 0x40}: true, {4, 0x40}: true}
+	roots, inters := NewCertPool(), NewCertPool()
+	if vChoice("pool-order", 2) == 0 {
+		roots.AddCert(xCross)
+		roots.AddCert(xSelf)
+	} else {
+		roots.AddCert(xSelf)
+		roots.AddCert(xCross)
+	}
+	if withInter {
+		inters.AddCert(inter)
+	}
+	opts := VerifyOptions{Roots: roots, Intermediates: inters, DisableTimeChecks: true, DisableCriticalExtensionChecks: true,
+		DisableEKUChecks: true, DisablePathLenChecks: true, DisableNameConstraintChecks: true}
+	chains, err := leaf.Verify(opts)
+	vAssert(err == nil && len(chains) > 0, "the chain is accepted")
+	want := 2
+	if withInter {
+		want = 3
+	}
+	endsIn := map[*Certificate]int{}
+	for _, ch := range chains {
+		vAssert(len(ch) == want && ch[0] == leaf && (!withInter || ch[1] == inter), "every path runs leaf, (intermediate,) trusted certificate")
+		endsIn[ch[len(ch)-1]]++
+	}
+	vAssert(endsIn[xCross] == 1 && endsIn[xSelf] == 1 && len(chains) == 2, "one path per trusted certificate of the CA, each ending in that certificate")
+	vReach("found")
+}
